@@ -118,11 +118,15 @@ impl OperationControl for Repeat {
             }
             // the entry for zero occurrences does not count as an iteration
             let zero = iterators.len();
+            #[cfg(regexml_verif)]
+            let mut zero_width = crate::verif::ZeroWidth::default();
             for _i in 0..bound {
                 #[cfg(regexml_verif)]
                 crate::verif::tick();
                 let mut it = self.operation.matches_iter(matcher, p);
                 if let Some(next) = it.next() {
+                    #[cfg(regexml_verif)]
+                    zero_width.note(p, next);
                     p = next;
                     iterators.push(it);
                     positions.push(p);
@@ -142,6 +146,8 @@ impl OperationControl for Repeat {
                 bound + zero,
                 min,
             );
+            #[cfg(regexml_verif)]
+            let iter = GreedyRepeatIterator { zero_width, ..iter };
             if needs_progress_guard {
                 Box::new(ForceProgressIterator::new(Box::new(iter)))
             } else {
@@ -195,6 +201,8 @@ struct GreedyRepeatIterator<'a> {
     iterators: Vec<Box<dyn Iterator<Item = usize> + 'a>>,
     positions: Vec<usize>,
     bound: usize,
+    #[cfg(regexml_verif)]
+    zero_width: crate::verif::ZeroWidth,
 }
 
 impl<'a> GreedyRepeatIterator<'a> {
@@ -214,6 +222,8 @@ impl<'a> GreedyRepeatIterator<'a> {
             iterators,
             positions,
             bound,
+            #[cfg(regexml_verif)]
+            zero_width: Default::default(),
         }
     }
 }
@@ -235,12 +245,18 @@ impl Iterator for GreedyRepeatIterator<'_> {
                 let top = self.iterators.last_mut().unwrap();
                 if let Some(mut p) = top.next() {
                     self.positions.pop();
+                    #[cfg(regexml_verif)]
+                    if let Some(&from) = self.positions.last() {
+                        self.zero_width.note(from, p);
+                    }
                     self.positions.push(p);
                     while self.iterators.len() < self.bound {
                         #[cfg(regexml_verif)]
                         crate::verif::tick();
                         let mut it = self.operation.matches_iter(self.matcher, p);
                         if let Some(next) = it.next() {
+                            #[cfg(regexml_verif)]
+                            self.zero_width.note(p, next);
                             p = next;
                             self.iterators.push(it);
                             self.positions.push(p)
@@ -278,6 +294,8 @@ struct ReluctantRepeatIterator<'a> {
     // position reached after that iteration
     iterators: Vec<Box<dyn Iterator<Item = usize> + 'a>>,
     positions: Vec<usize>,
+    #[cfg(regexml_verif)]
+    zero_width: crate::verif::ZeroWidth,
 }
 
 impl<'a> ReluctantRepeatIterator<'a> {
@@ -297,6 +315,8 @@ impl<'a> ReluctantRepeatIterator<'a> {
             started: false,
             iterators: Vec::new(),
             positions: Vec::new(),
+            #[cfg(regexml_verif)]
+            zero_width: Default::default(),
         }
     }
 }
@@ -332,6 +352,8 @@ impl Iterator for ReluctantRepeatIterator<'_> {
             if count < self.max && !stuck {
                 let mut it = self.operation.matches_iter(self.matcher, current);
                 if let Some(p) = it.next() {
+                    #[cfg(regexml_verif)]
+                    self.zero_width.note(current, p);
                     self.iterators.push(it);
                     self.positions.push(p);
                     if self.iterators.len() >= self.min {
